@@ -210,3 +210,110 @@ pub fn first_divergence(a: &[TEvent], b: &[TEvent]) -> Option<(usize, String, St
     }
     None
 }
+
+// ---------------------------------------------------------------------------------------------
+// Logged transcript: element boundaries for any element type (incl. u32 length prefixes)
+// ---------------------------------------------------------------------------------------------
+
+use midnight_proofs::transcript::{CircuitTranscript, Transcript};
+
+/// One element read from (or written to) the proof buffer by the code under test.
+#[derive(Clone, Debug, PartialEq, Eq)]
+pub struct Element {
+    /// 'P' group element, 'S' scalar, 'U' u32, '?' other
+    pub kind: char,
+    pub offset: usize,
+    pub len: usize,
+}
+
+thread_local! {
+    static ELEMENTS: RefCell<Vec<Element>> = const { RefCell::new(Vec::new()) };
+    static SQUEEZES: RefCell<usize> = const { RefCell::new(0) };
+}
+
+/// Clears and returns the elements recorded on this thread by `LoggedTranscript`s.
+pub fn take_elements() -> Vec<Element> {
+    ELEMENTS.with(|e| std::mem::take(&mut *e.borrow_mut()))
+}
+
+/// Number of challenges squeezed through `LoggedTranscript`s on this thread since the last call.
+pub fn take_squeeze_count() -> usize {
+    SQUEEZES.with(|s| std::mem::replace(&mut *s.borrow_mut(), 0))
+}
+
+fn kind_of<T>() -> char {
+    let n = std::any::type_name::<T>();
+    if n.contains("G1") || n.contains("Projective") || n.contains("Affine") {
+        'P'
+    } else if n.ends_with("u32") {
+        'U'
+    } else if n.contains("Fq") || n.contains("Fr") || n.contains("Scalar") {
+        'S'
+    } else {
+        '?'
+    }
+}
+
+/// A `Transcript` that delegates to `CircuitTranscript<H>` and records, for every `read` /
+/// `write`, the byte range of the element in the proof buffer. Works with the repository's own
+/// hash types (no wrapper hash needed), so any `Hashable` impl — including the blanket one for
+/// `u32` — is covered.
+#[derive(Clone, Debug)]
+pub struct LoggedTranscript<H: TranscriptHash>(pub CircuitTranscript<H>);
+
+impl<H: TranscriptHash> Transcript for LoggedTranscript<H> {
+    type Hash = H;
+
+    fn init() -> Self {
+        LoggedTranscript(CircuitTranscript::init())
+    }
+
+    fn init_from_bytes(bytes: &[u8]) -> Self {
+        LoggedTranscript(CircuitTranscript::init_from_bytes(bytes))
+    }
+
+    fn squeeze_challenge<T: Sampleable<H>>(&mut self) -> T {
+        SQUEEZES.with(|s| *s.borrow_mut() += 1);
+        self.0.squeeze_challenge()
+    }
+
+    fn common<T: Hashable<H>>(&mut self, input: &T) -> io::Result<()> {
+        self.0.common(input)
+    }
+
+    fn read<T: Hashable<H>>(&mut self) -> io::Result<T> {
+        let before = self.0.buffer().position() as usize;
+        let r = self.0.read::<T>();
+        let after = self.0.buffer().position() as usize;
+        ELEMENTS.with(|e| {
+            e.borrow_mut().push(Element {
+                kind: kind_of::<T>(),
+                offset: before,
+                len: after - before,
+            })
+        });
+        r
+    }
+
+    fn write<T: Hashable<H>>(&mut self, input: &T) -> io::Result<()> {
+        let before = self.0.buffer().position() as usize;
+        let r = self.0.write(input);
+        let after = self.0.buffer().position() as usize;
+        ELEMENTS.with(|e| {
+            e.borrow_mut().push(Element {
+                kind: kind_of::<T>(),
+                offset: before,
+                len: after - before,
+            })
+        });
+        r
+    }
+
+    fn finalize(self) -> Vec<u8> {
+        self.0.finalize()
+    }
+
+    fn assert_empty(&mut self) -> io::Result<()> {
+        self.0.assert_empty()
+    }
+}
